@@ -22,7 +22,8 @@ Semantics implemented (the trusted base; listed as assumptions by the checks tha
  S3  Columns not named by a statement are left untouched.
  S4  Static columns live once per partition and are visible in every row of the partition; a
      partition holding only static cells reads back as one row with null clustering / regular
-     columns.  A statement that touches only static columns needs only the partition key; a
+     columns.  An UPDATE or DELETE that touches only static columns must give only the partition
+     key (clustering restrictions are rejected; INSERT accepts them); a
      statement that touches regular columns needs the full primary key (otherwise
      InvalidRequest), except DELETE without a column list, which deletes the whole partition
      (statics included) when given the partition key only.  DELETE without a column list and
@@ -872,9 +873,10 @@ class Database(object):
             need_ck = any(m[0] == 'row' for m in muts) or \
                 any(c.column not in t.static for c in st.conditions)
             keys = self._keys(t, st.where, params, need_ck, allow_partition_only=True)
-            if not need_ck and t.ck and any(ck is not None for _, ck in keys):
-                # Cassandra accepts clustering restrictions on a static-only UPDATE and ignores them
-                pass
+            if not need_ck and t.ck and any(r.column in t.ck for r in st.where):
+                # "UPDATE t SET s = 3 WHERE k = 0 AND v = 1 ... sounds like you don't really understand what
+                # you are doing" (ModificationStatement): rejected for UPDATE and DELETE, accepted for INSERT
+                raise InvalidRequest('Invalid restrictions on clustering columns since the UPDATE statement modifies only static columns')
             return tk, t, keys, muts, None
 
         if st.kind == 'DELETE':
@@ -1122,7 +1124,12 @@ class Database(object):
                     if same_stmt:
                         raise InvalidRequest('Multiple incompatible setting of column %s' % c)
                     raise Unsupported('two statements of one batch write the same cell %r (S8)' % (where,))
-                if len(set(tags)) != len(tags):
+                dup = set(tag for tag in tags if tags.count(tag) > 1)
+                # twice the same operation: appends get increasing time-uuids (statement order), set
+                # additions/removals commute; anything else (same map key / list index twice, two
+                # prepends) depends on tie rules that are not modelled
+                if dup and not all((t.kinds[c] == 'list' and tag == ('plus',)) or
+                                   (t.kinds[c] == 'set' and tag[0] in ('plus', 'minus')) for tag in dup):
                     raise Unsupported('the same operation/element of column %s twice at one timestamp' % c)
                 if t.kinds[c] == 'list' and any(tag[0] in ('minus', 'delelem', 'elem') for tag in tags):
                     raise Unsupported('list removal/index operation combined with another operation on %s' % c)
@@ -1435,6 +1442,13 @@ def selftest():
         raise AssertionError('static deletion with clustering accepted')
     except InvalidRequest:
         pass
+    try:
+        ex('UPDATE ks.t SET "st" = %(0)s WHERE "p" = %(1)s AND "c" = %(2)s', {'0': 'y', '1': 2, '2': 5})
+        raise AssertionError('static-only update with clustering accepted')
+    except InvalidRequest:
+        pass
+    ex('UPDATE ks.t SET "st" = %(0)s, "v" = %(3)s WHERE "p" = %(1)s AND "c" = %(2)s', {'0': 'y', '1': 2, '2': 5, '3': 1})
+    assert db.read_static(T, (2,)) == {'st': 'y'}
     ex('DELETE FROM ks.t WHERE "p" = %(0)s', {'0': 2})
     assert ex('SELECT * FROM ks.t WHERE "p" = %(0)s', {'0': 2}) == []
     # S6 counters
